@@ -125,9 +125,9 @@ impl Network {
     ensures r == combined_limit(
         self.vehicle_types.vehicle_types@[self.sp_trip(service_trip).vehicle_type].maximal_formation_count,
         self.sp_trip(service_trip).maximal_formation_count), // @obl C02.maximal_formation_count_for.smaller_of_present_limits
-//@closure-params 0
+//@closure-params? 0
     VehicleCount
-//@closure 0
+//@closure? 0
     -> (m: VehicleCount) ensures m == (if l <= limit_of_node.unwrap_or(l) { l } else { limit_of_node.unwrap_or(l) })
 //@end
 //@item model/src/network.rs Network::number_of_vehicles_required_to_serve
